@@ -104,6 +104,20 @@ def internal_attr_cases(ctx, n):
         out.append((stages.URIS[0], root, ctx.rng.choice(['', 'p_1']), (gen.gen_doc(ctx.rng, root) + '\n' if ctx.rng.random() < 0.3 else '') + body + '\n'))
     return out
 
+HREFS = ['http://[2001:db8::1/page', '//[x', 'http://x]', 'http://[foo]/', 'http://example.com\u2100x', 'http://example.com\uff0fx', 'javascript:alert(1)', 'mailto:[x',
+         'http://a:b:c/', 'http://user@[::1]:99999/', 'ftp://\u00e9.example/\u05d0', 'file:///c:/x', '#', '##x', '?', 'http://%zz', 'http://x/%', 'a\\b', '[', ']', ':', '//',
+         'http://x/../../y', 'urn:lex:za:act:2009', 'data:,x', 'HTTP://X', 'http:///x', '\u202ehttp://x', 'http://x\u200b.y']
+def href_cases(ctx, n):
+    """link targets and image sources that URL libraries choke on (unbalanced brackets, bad ports, NFKC look-alikes, stray percent signs,
+    odd schemes): to the converter they are strings, conversion must complete - in a paragraph, a heading, a cell, a list item, a remark"""
+    shapes = ['see {{>%s the page}} for details', 'SEC 1 - {{>%s h}}\n  x', 'TABLE\n  TR\n    TC\n      {{>%s c}}', 'ITEMS\n  ITEM (a) - {{>%s i}}\n    x',
+              'a {{*remark {{>%s r}}}}', 'an image {{IMG %s alt text}}', '{{>%s {{IMG %s}}}}', '**{{>%s b}}**']
+    out = []
+    for i, h in enumerate(HREFS):
+        for j, sh in enumerate(shapes):
+            out.append((stages.URIS[0], gen.ROOTS6[(i + j) % 6], ['', 'p_1'][(i + j) % 2], sh.replace('%s', h) + '\n'))
+    return out
+
 WITNESSES = [('act', 'SCHEDULES\n'), ('judgment', 'APPENDIXES x\n'), ('doc', 'a\x01b\n'), ('act', 'P{1 x} foo\n'), ('bill', 'P{a:b x} foo\n'),
              ('act', 'FOOTNOTE 1\n  x {{FOOTNOTE 1}}\n'), ('statement', 'ANNEXURE-A\n  x\n'), ('debateReport', 'x\n\x0e\ny\n')]
 
@@ -126,7 +140,7 @@ def correspondence(ctx):
         if r != want and not text.startswith(('P ', 'P.', 'P{')):
             ctx.failures.append(({'stage': 'e2e', 'uri': uri, 'root': root, 'prefix': prefix, 'text': text, 'exception': None},
                                  'a plain line did not become the one paragraph C01_plain_line_converts predicts: %r' % (r,)))
-    cs = cases(ctx, ctx.n(800, 60000)) + [(stages.URIS[0], r, '', t) for r, t in WITNESSES] + pl + internal_attr_cases(ctx, ctx.n(150, 5000))
+    cs = cases(ctx, ctx.n(800, 60000)) + [(stages.URIS[0], r, '', t) for r, t in WITNESSES] + pl + internal_attr_cases(ctx, ctx.n(150, 5000)) + href_cases(ctx, 0)
     ctx._docs = cs
     stages.stage_e2e(ctx, cs)
 
